@@ -37,6 +37,7 @@ def fworld (blk : String → Nat → Nat → Nat) (st : Strm) (scale : Nat) : Wo
   int := .int
   str := .str
   list := .list
+  newList vs := pure (.list vs)
   tuple := .list
   global n :=
     if n == "len" then pure (.fn .len) else if n == "isinstance" then pure (.fn .isinstance)
